@@ -27,6 +27,10 @@
 (* class is judged on premultiplied inputs only (colour <= alpha in source and destination), *)
 (* as the statement says; other pixels are not judged.                                       *)
 (*                                                                                           *)
+(* Solid-fill images carry 16-bit channels: in the exact class (and wherever pixman works in   *)
+(* 8 bits) their value is the 8 most significant bits; the real-valued equations use the true  *)
+(* value n / 65535.                                                                            *)
+(*                                                                                           *)
 (* Outside the domain: the four HSL operators with a component-alpha mask (Render / PDF      *)
 (* define no such equation; pixman makes them no-ops), sRGB and floating point formats,      *)
 (* dithering.                                                                                *)
@@ -220,6 +224,9 @@ RSrcIn(s, m, mode) ==
 RSrcAlpha(s, m, mode) ==
     [c \in Chan |-> CASE mode = "none" -> s["a"] [] mode = "unified" -> IvMul(s["a"], m["a"]) [] mode = "ca" -> IvMul(m[c], s["a"])]
 
+(* a solid-fill colour <<a, r, g, b>> of 16-bit values as a pixel *)
+SolidPixel(col) == [c \in Chan |-> CU(CASE c = "a" -> col[1] [] c = "r" -> col[2] [] c = "g" -> col[3] [] c = "b" -> col[4], 16)]
+
 RealPixel(px) == [c \in Chan |-> RealOf(px[c], c)]
 Real8(p8) == [c \in Chan |-> IvFromUnorm(Ch(p8, c), 255)]
 
@@ -237,7 +244,7 @@ InDomain(op, fs, fm, fd, mode) ==
 
 (* colour <= alpha, as exact rationals *)
 LeqCV(x, a) ==            \* x.n / max(x.b) <= a.n / max(a.b); absent colour = 0, absent alpha = 1
-    x.k = "none" \/ a.k = "none" \/ x.n * MaxOf(a.b) <= a.n * MaxOf(x.b)
+    x.k = "none" \/ a.k = "none" \/ (IF x.b = a.b THEN x.n <= a.n ELSE x.n * MaxOf(a.b) <= a.n * MaxOf(x.b))
 Premult(px) == LeqCV(px["r"], px["a"]) /\ LeqCV(px["g"], px["a"]) /\ LeqCV(px["b"], px["a"])
 
 (* exact class: the destination channel is the truncation of the 8-bit result *)
